@@ -249,6 +249,59 @@ fn scenarios(tier: &str) -> Vec<(String, ScenMaker)> {
             }
         }
     }
+    // FAT32 entries whose low half-word is zero: SUB/DEEP/HIGH.DAT occupies clusters 65535 -> 65536, so
+    // FAT[65535] = 0x0001_0000. The hint in the information sector makes A.TXT land on cluster 65534 directly in
+    // front of it; A.TXT is then truncated / deleted / regrown, so later free-cluster scans start below that entry
+    // and have to pass over it. HIGH.DAT stays open read-only and is read back in every state.
+    {
+        let depth = if tier == "quick" { 3 } else { 4 };
+        let name = format!("fat32-entry-65535/d{}", depth);
+        let n2 = name.clone();
+        let thorough = tier != "quick";
+        out.push((
+            name,
+            Box::new(move || {
+                let g = scen::g_v32a();
+                let opts = scen::TreeOpts { fsinfo: crate::mkfs::FsInfo::Hint(65534), ..Default::default() };
+                let cfg = make_cfg(scen::build(g, &opts), Front::Raw, false);
+                let pre = vec![
+                    Op::OpenVol { v: 0 },
+                    Op::OpenRoot { v: 0, d: 0 },
+                    Op::OpenDir { p: 0, name: 5, d: 1 },
+                    Op::OpenDir { p: 1, name: 6, d: 2 },
+                    Op::Open { d: 2, name: 27, mode: M_RO, f: 1 },
+                    Op::Open { d: 0, name: 0, mode: M_CREATE, f: 0 },
+                    Op::Write { f: 0, n: 1 },
+                    Op::Close { f: 0 },
+                ];
+                let mut alpha = vec![
+                    Op::Open { d: 0, name: 0, mode: M_TRUNC, f: 0 },
+                    Op::Open { d: 0, name: 0, mode: M_APPEND, f: 0 },
+                    Op::Open { d: 0, name: 17, mode: M_CREATE, f: 0 },
+                    Op::Delete { d: 0, name: 0 },
+                    Op::Close { f: 0 },
+                    Op::Write { f: 0, n: 1 },
+                    Op::Write { f: 0, n: 513 },
+                    Op::Write { f: 0, n: 1031 },
+                    Op::SeekStart { f: 1, o: 0 },
+                    Op::SeekStart { f: 1, o: 512 },
+                    Op::Read { f: 1, n: 1536 },
+                ];
+                if thorough {
+                    alpha.extend([
+                        Op::Open { d: 0, name: 1, mode: M_CREATE, f: 2 },
+                        Op::Write { f: 2, n: 1 },
+                        Op::Write { f: 2, n: 513 },
+                        Op::Close { f: 2 },
+                        Op::Flush { f: 0 },
+                        Op::SeekStart { f: 0, o: 0 },
+                        Op::Read { f: 0, n: 1536 },
+                    ]);
+                }
+                Scenario::new(&n2, cfg, pre, alpha, depth)
+            }),
+        ));
+    }
     out
 }
 
